@@ -162,38 +162,62 @@ func checkYamuxKeepAlive(c *Ctx, res *report.Result, rule string) {
 				n++
 				cfg := flow.Strip(flow.ResolveLoad(call.Common().Args[1]))
 				construct := name + ": yamux." + sc.Name() + " gets a config with keep-alive enabled"
-				bad := ""
-				switch x := cfg.(type) {
-				case *ssa.Call:
-					if d := flow.StaticCallee(&x.Call); d == nil || d.Pkg == nil || d.Pkg.Pkg.Path() != yamuxPkg || d.Name() != "DefaultConfig" {
-						bad = "the config comes from " + flow.Describe(cfg) + ", not from yamux.DefaultConfig()"
+				// keepAliveOff: why the config value does not have keep-alive on ("" = it has). A module helper that
+				// returns the config is followed (two levels): every one of its returns must qualify, and it must not
+				// switch the flag off either.
+				var keepAliveOff func(cfg ssa.Value, in *ssa.Function, d int) string
+				keepAliveOff = func(cfg ssa.Value, in *ssa.Function, d int) string {
+					bad := ""
+					switch x := cfg.(type) {
+					case *ssa.Call:
+						dc := flow.StaticCallee(&x.Call)
+						switch {
+						case dc != nil && dc.Pkg != nil && dc.Pkg.Pkg.Path() == yamuxPkg && dc.Name() == "DefaultConfig":
+						case dc != nil && dc.Pkg != nil && strings.HasPrefix(dc.Pkg.Pkg.Path(), modPath) && len(dc.Blocks) > 0 && d < 2:
+							nret := 0
+							for _, hb := range dc.Blocks {
+								if ret, isR := hb.Instrs[len(hb.Instrs)-1].(*ssa.Return); isR && len(ret.Results) >= 1 {
+									nret++
+									if w := keepAliveOff(flow.Strip(flow.ResolveLoad(flow.Ret(ret)[0])), dc, d+1); w != "" {
+										bad = "the config comes from " + shortFn(dc) + ", where " + w
+									}
+								}
+							}
+							if nret == 0 {
+								bad = "the config comes from " + shortFn(dc) + ", which returns nothing recognisable"
+							}
+						default:
+							bad = "the config comes from " + flow.Describe(cfg) + ", not from yamux.DefaultConfig()"
+						}
+					case *ssa.Alloc:
+						fs, _ := flow.FieldStores(x)
+						v := fs["EnableKeepAlive"]
+						if v == nil {
+							v = flow.StructFieldOrigin(x, "EnableKeepAlive", 0)
+						}
+						if b, isB := flow.ConstBool(v); v == nil || !isB || !b {
+							bad = "the config is a literal that does not set EnableKeepAlive (its zero value is false)"
+						}
+					case *ssa.Const:
+						// nil config: yamux uses DefaultConfig()
+					default:
+						bad = "the origin of the config (" + flow.Describe(cfg) + ") is not recognised"
 					}
-				case *ssa.Alloc:
-					fs, _ := flow.FieldStores(x)
-					v := fs["EnableKeepAlive"]
-					if v == nil {
-						v = flow.StructFieldOrigin(x, "EnableKeepAlive", 0)
-					}
-					if b, isB := flow.ConstBool(v); v == nil || !isB || !b {
-						bad = "the config is a literal that does not set EnableKeepAlive (its zero value is false)"
-					}
-				case *ssa.Const:
-					// nil config: yamux uses DefaultConfig()
-				default:
-					bad = "the origin of the config (" + flow.Describe(cfg) + ") is not recognised"
-				}
-				// no store of EnableKeepAlive = false anywhere in the factory
-				for _, b := range g.Blocks {
-					for _, ins := range b.Instrs {
-						if st, ok := ins.(*ssa.Store); ok {
-							if fa, ok := st.Addr.(*ssa.FieldAddr); ok && flow.FieldName(fa.X.Type(), fa.Field) == "EnableKeepAlive" {
-								if v, isB := flow.ConstBool(st.Val); !isB || !v {
-									bad = "EnableKeepAlive is switched off (or set from a non-constant) at " + instrPos(c.Prog, st)
+					// no store of EnableKeepAlive = false anywhere in the function that builds it
+					for _, b := range in.Blocks {
+						for _, ins := range b.Instrs {
+							if st, ok := ins.(*ssa.Store); ok {
+								if fa, ok := st.Addr.(*ssa.FieldAddr); ok && flow.FieldName(fa.X.Type(), fa.Field) == "EnableKeepAlive" {
+									if v, isB := flow.ConstBool(st.Val); !isB || !v {
+										bad = "EnableKeepAlive is switched off (or set from a non-constant) at " + instrPos(c.Prog, st)
+									}
 								}
 							}
 						}
 					}
+					return bad
 				}
+				bad := keepAliveOff(cfg, g, 0)
 				res.Check(bad == "", rule, construct, instrPos(c.Prog, call), "yamux.DefaultConfig() (keep-alive on)", bad+": yamux then never starts its keep-alive goroutine, the only code that closes a session whose peer stopped answering - a silently dead session keeps its permit and is never replaced")
 			}
 		}
